@@ -34,6 +34,73 @@ def eye_atom(x_sig, x_noise, **kw):
     return obj
 
 
+def _shape(v, npol):
+    """coarse shape of a value form: 'scalar', 'N' (one entry per sample), '2xN' (per polarisation), '?'"""
+    lay = "2xN" if npol == 2 else "N"
+    if isinstance(v, Const) or v is None:
+        return "scalar"
+    if not isinstance(v, Form):
+        return "?"
+    if v.const_value() is not None:
+        return "scalar"
+
+    def join(a, b):
+        if "?" in (a, b):
+            return "?"
+        if a == "scalar":
+            return b
+        if b == "scalar":
+            return a
+        return "2xN" if "2xN" in (a, b) else "N"
+
+    def atom(a):
+        k = a[0]
+        if k in ("num", "c"):
+            return "scalar"
+        if k == "sym":
+            n_ = a[1]
+            if n_ in ("input.signal", "input.noise"):
+                return lay
+            return "scalar"
+        if k == "grp":
+            return _shape(a[1], npol)
+        if k == "idx":
+            return "?"
+        if k == "fn":
+            nm, args, kw = a[1], a[2], dict(a[3])
+            if nm == "scipy.signal.sosfiltfilt" and len(args) >= 2:
+                return _shape(args[1], npol)
+            if nm in ("zeros", "ones", "empty", "numpy.random.normal", "numpy.random.randn", "normal"):
+                size = kw.get("size", kw.get("shape", args[-1] if args else None))
+                sa = size.single_atom() if isinstance(size, Form) else None
+                if sa and sa[0] == "fn" and sa[1] in ("siglen", "len", "size"):
+                    return "N"
+                return "?"
+            if nm in ("zeros_like", "ones_like", "abs", "real", "imag", "conj", "exp", "sqrt", "astype", "neg"):
+                return _shape(args[0], npol) if args else "?"
+            if nm in ("sum", "mean"):
+                inner = _shape(args[0], npol) if args else "?"
+                ax = kw.get("axis")
+                if ax is None:
+                    return "scalar"
+                if isinstance(ax, Form) and ax.rational() == 0:
+                    return {"2xN": "N", "N": "scalar"}.get(inner, "?")
+                if isinstance(ax, Form) and ax.rational() == -1:
+                    return {"2xN": "?", "N": "scalar"}.get(inner, "?")
+                return "?"
+            if nm in ("siglen", "len", "size", "toc", "exp10", "log10"):
+                return "scalar"
+            return "?"
+        return "?"
+    out = "scalar"
+    for mono in v.terms:
+        t = "scalar"
+        for a, _e in mono:
+            t = join(t, atom(a))
+        out = join(out, t)
+    return out
+
+
 def run(ctx):
     pkg = ctx.pkg
     # ---------------------------------------------------------------- C03.1 counters
@@ -168,8 +235,27 @@ def run(ctx):
     want = {repr(mk_fn("int", [HALF])), repr(mk_fn("int", [HALF - 1]))}
     ctx.check("C03.4", starts == want, fd, fd.node, f"DAC Gaussian impulses at offsets {sorted(starts)}", "sps//2 and sps//2-1: the pulse peaks where both DSP chains sample (gv.sps//2)",
               "the Gaussian pulse pair is not centred on the instant gv.sps//2 at which ook.DSP and ppm.DSP sample")
+    # ---------------------------------------------------------------- C03.6 the receiver end of the noise-free link
+    # PD on a field without a noise component must build its (signal, noise) pair with one entry per sample in BOTH polarisation
+    # layouts; a (2, N) array left in one of them makes the electrical_signal constructor raise and the link returns nothing.
+    fpd = pkg.func("devices.PD")
+    for npol in (1, 2):
+        for opt in ("ase-only", "all"):
+            itp = Interp(pkg, param_classes={"input": "optical_signal"}, assumptions={"include_noise": opt, "input.noise": "none", "input.n_pol": npol, "BW": None})
+            outs_p = itp.run(fpd)
+            rets_p = [o for o in outs_p if o.kind == "return"]
+            if len(rets_p) != 1 or not isinstance(rets_p[0].value, ObjV):
+                ctx.unknown("C03.6", fpd, fpd.node, f"PD [noise-free input, n_pol={npol}, {opt}]", f"{len(rets_p)} return paths")
+                continue
+            o_ = rets_p[0].value
+            shs, shn = _shape(o_.fields.get("signal"), npol), _shape(o_.fields.get("noise"), npol)
+            bad = shs in ("N", "2xN") and shn in ("N", "2xN") and (shs != "N" or shn != "N")
+            ctx.check("C03.6", not bad, fpd, rets_p[0].node, f"PD [noise-free input, n_pol={npol}, {opt}]: signal current {shs}, noise current {shn}", "one entry per sample in both",
+                      f"for a {'two' if npol == 2 else 'one'}-polarisation field without noise the signal current has shape {shs} and the noise current {shn}: "
+                      "electrical_signal(signal, noise) raises ValueError (shape mismatch) and the noise-free link returns no bits in this layout")
     check_late_binding(ctx, "C03.5", ["ook.DSP", "ppm.DSP", "ook.BER_analizer", "ppm.BER_analizer"])
     ctx.require_min("C03.1", 2)
     ctx.require_min("C03.2", 2)
     ctx.require_min("C03.3", 5)
     ctx.require_min("C03.4", 1)
+    ctx.require_min("C03.6", 4)
